@@ -169,6 +169,16 @@ class Flow:
                 out.add(("c", True))
             return frozenset(out)
         if isinstance(node, ast.IfExp):
+            # the branches are evaluated in the state refined by the test (`x if x else ""` is never None)
+            if not any(isinstance(n, ast.Call) for n in ast.walk(node.test)):
+                ts, fs = self.split(node.test, st)
+                vals = frozenset()
+                for s2 in ts:
+                    vals |= self.eval(node.body, s2)
+                for s2 in fs:
+                    vals |= self.eval(node.orelse, s2)
+                if ts or fs:
+                    return vals
             return self.eval(node.body, st) | self.eval(node.orelse, st)
         if isinstance(node, (ast.JoinedStr,)):
             return TOP
